@@ -536,8 +536,7 @@ Section Prune.
   Lemma dead_empty : forall k, ~ dead b0 k.
   Proof.
     intros k D. destruct k; cbn in D; try lia; try exact D.
-    - destruct D as [R _]. lia.
-    - destruct D as (x&?&?&?&R&_). lia.
+    all: try (destruct D as (x&?&?&?&R&_); lia).
   Qed.
 
   Lemma PI_init : PI pst0 b0.
@@ -563,7 +562,7 @@ Section Prune.
 
   Lemma reads_not_desc : forall tip h id t k, reads tip h id t k -> k <> KDesc.
   Proof.
-    intros tip h id t k [->|[[i [_ ->]]|[->|->]]]; try discriminate. destruct (h =? tip); discriminate.
+    intros tip h id t k [ -> | [ [i [_ -> ] ] | [ -> | -> ] ] ]; try discriminate. destruct (h =? tip); discriminate.
   Qed.
 
   (* flush(nb) when everything pending belongs to heights below nb *)
@@ -598,7 +597,7 @@ Section Prune.
       destruct (range_of_cons d1 _ Est1 C1) as [_ G1r].
       intros y Ry. apply (hgood_ext d1); [apply G1r; exact Ry|].
       intros id t vh ph k M Rk. apply G2. intro D.
-      destruct Rk as [->|[[i [_ ->]]|[->|->]]].
+      destruct Rk as [ -> | [ [i [_ -> ] ] | [ -> | -> ] ] ].
       - cbn in D. lia.
       - cbn in D. lia.
       - cbn in D. destruct D as (x&t'&vh'&ph'&Rx&Mx).
@@ -633,4 +632,281 @@ Section Prune.
     - reflexivity.
     - reflexivity.
   Qed.
+
+  Lemma PI_body : forall st h, PI st h -> h < H -> PI (prune_body B 1 h st) (h + 1).
+  Proof.
+    intros st h P L.
+    assert (P' := P). destruct P' as [Pdb Pmem Ph Pb Pc Pbatch Pkeep Pgone Ppref].
+    assert (Estd : load_state (p_db st) = {| m_base := m_base (p_mem st); m_height := H |}).
+    { rewrite <- Pmem. destruct (p_mem st); cbn in *. subst. reflexivity. }
+    destruct (range_of_cons _ _ Estd Pc) as [Rd Gd].
+    assert (Mk : load_meta (p_db st) h = load_meta d0 h).
+    { unfold load_meta. rewrite Pkeep; [reflexivity|discriminate|cbn; lia]. }
+    destruct (Gd h ltac:(lia)) as (id&t&vh&ph&M&_).
+    unfold prune_body. rewrite M.
+    set (st1 := {| p_db := p_db st; p_mem := p_mem st;
+                   p_batch := rev_append (del_block_wops h id t) (p_batch st);
+                   p_pruned := p_pruned st + 1; p_steps := p_steps st |}).
+    assert (M0 : load_meta d0 h = Some (id, t, vh, ph)) by (rewrite <- Mk; exact M).
+    assert (P1 : PI st1 (h + 1)).
+    { constructor; cbn [st1 p_db p_mem p_batch p_steps].
+      - exact Pdb.
+      - exact Pmem.
+      - exact Ph.
+      - lia.
+      - exact Pc.
+      - intros w Hw. rewrite rev_append_rev in Hw. apply in_app_or in Hw. destruct Hw as [Hw|Hw].
+        + apply in_rev in Hw. unfold del_block_wops in Hw. cbn [app In] in Hw.
+          destruct Hw as [<-|[<-|[<-|[<-|Hw]]]].
+          * exists (KMeta h). split; [reflexivity|cbn; lia].
+          * exists (KHash id). split; [reflexivity|]. cbn. exists h, t, vh, ph. split; [lia|exact M0].
+          * exists (KCommit h). split; [reflexivity|cbn; lia].
+          * exists (KSeen h). split; [reflexivity|cbn; lia].
+          * apply in_map_iff in Hw. destruct Hw as [i [<- Hi]]. apply in_zseq in Hi.
+            exists (KPart h i). split; [reflexivity|]. cbn. split; [lia|].
+            exists id, t, vh, ph. split; [exact M0 | exact Hi].
+        + destruct (Pbatch w Hw) as [k [E D]]. exists k. split; [exact E|].
+          apply (dead_mono h); [lia|exact D].
+      - intros k N ND. apply Pkeep; [exact N|]. intro D. apply ND. apply (dead_mono h); [lia|exact D].
+      - intros k D.
+        assert (Hcase : dead h k \/ In (WDel k) (del_block_wops h id t)).
+        { destruct k as [x|x i|x|x|id'|]; cbn in D |- *.
+          - destruct (Z.eq_dec x h) as [->|N]; [right; left; reflexivity | left; lia].
+          - destruct D as [R (id'&t'&vh'&ph'&Mx&Ri)]. destruct (Z.eq_dec x h) as [->|N].
+            + right. rewrite M0 in Mx. inversion Mx; subst.
+              right; right; right; right. apply in_map_iff. exists i. split; [reflexivity|apply in_zseq; exact Ri].
+            + left. split; [lia|]. exists id', t', vh', ph'. auto.
+          - destruct (Z.eq_dec x h) as [->|N]; [right; right; right; left; reflexivity | left; lia].
+          - destruct (Z.eq_dec x h) as [->|N]; [right; right; right; right; left; reflexivity | left; lia].
+          - destruct D as (x&t'&vh'&ph'&R&Mx). destruct (Z.eq_dec x h) as [->|N].
+            + right. rewrite M0 in Mx. inversion Mx; subst. right; left; reflexivity.
+            + left. exists x, t', vh', ph'. split; [lia|exact Mx].
+          - contradiction. }
+        destruct Hcase as [Dh|Hin].
+        + destruct (Pgone k Dh) as [Hn|Hb]; [left; exact Hn|].
+          right. rewrite rev_append_rev. apply in_or_app. right. exact Hb.
+        + right. rewrite rev_append_rev. apply in_or_app. left. apply -> in_rev. exact Hin.
+      - exact Ppref. }
+    destruct (p_pruned st1 mod B =? 0).
+    - apply PI_flush; [exact P1 | lia].
+    - exact P1.
+  Qed.
+
+  Lemma PI_loop : forall n st h, PI st h -> h + Z.of_nat n <= H ->
+      PI (prune_loop B 1 n h st) (h + Z.of_nat n).
+  Proof.
+    induction n as [|n IH]; intros st h P L; cbn [prune_loop].
+    - replace (h + Z.of_nat 0) with h by lia. exact P.
+    - replace (h + Z.of_nat (S n)) with ((h + 1) + Z.of_nat n) by lia.
+      apply IH; [apply PI_body; [exact P|lia] | lia].
+  Qed.
 End Prune.
+
+(* PruneBlocks(r) from a consistent store: every prefix of its write steps leaves a consistent
+   database, it ends with base = r, deletes exactly the keys of the heights [base, r) and
+   changes nothing else but the range descriptor. *)
+Lemma prune_ok : forall B m d r,
+    wf m d ->
+    match prune_blocks B m d r with
+    | PErr _ => True
+    | POk _ m' l d' =>
+      d' = breplay l d /\ m' = load_state d' /\
+      m' = {| m_base := r; m_height := m_height m |} /\ m_base m <= r <= m_height m /\
+      (forall n, Consistent (breplay (firstn n l) d)) /\ Consistent d' /\
+      (forall k, k <> KDesc -> ~ dead d (m_base m) r k -> bget d' k = bget d k) /\
+      (forall k, dead d (m_base m) r k -> bget d' k = None)
+    end.
+Proof.
+  intros B m d r [Em C]. unfold prune_blocks, prune_blocks_gen.
+  destruct (r <=? 0) eqn:E1; [exact Logic.I|]. apply Z.leb_gt in E1.
+  destruct (m_height m <? r) eqn:E2; [exact Logic.I|]. apply Z.ltb_ge in E2.
+  destruct (r <? m_base m) eqn:E3; [exact Logic.I|]. apply Z.ltb_ge in E3.
+  assert (Hst : load_state d = {| m_base := m_base m; m_height := m_height m |}).
+  { rewrite <- Em. destruct m; reflexivity. }
+  assert (R : 1 <= m_base m <= m_height m /\ range_good d (m_base m) (m_height m)).
+  { unfold Consistent in C. rewrite Hst in C. cbn in C. destruct C as [[E0 _]|R]; [lia|exact R]. }
+  destruct R as [R G].
+  pose proof (PI_init d (m_base m) (m_height m) Hst R G) as P0.
+  pose proof (PI_loop B d (m_base m) (m_height m) Hst R G (Z.to_nat (r - m_base m)) _ _ P0) as P1.
+  replace (m_base m + Z.of_nat (Z.to_nat (r - m_base m))) with r in P1 by lia.
+  specialize (P1 ltac:(lia)).
+  unfold pst0 in P1. replace {| m_base := m_base m; m_height := m_height m |} with m in P1 by (destruct m; reflexivity).
+  destruct (PI_flush d (m_base m) (m_height m) Hst R G _ r P1 ltac:(lia)) as (P2 & Eb & Ebase).
+  destruct P2 as [Pdb Pmem Ph Pb Pc Pbatch Pkeep Pgone Ppref].
+  split; [exact Pdb|]. split; [exact Pmem|]. split.
+  { destruct (p_mem (flush _ r)) as [bb hh]; cbn in *. subst. reflexivity. }
+  split; [lia|]. split; [exact Ppref|]. split; [exact Pc|]. split; [exact Pkeep|].
+  intros k D. destruct (Pgone k D) as [Hn|Hin]; [exact Hn|]. rewrite Eb in Hin. destruct Hin.
+Qed.
+
+(* ---- histories with crashes *)
+
+Definition bop_ok (d : bdb) (o : bop) : Prop :=
+  match o with OSave b seen => save_ok d b seen | OPrune _ => True end.
+
+Lemma bop_run_ok : forall B m d o code m' l d',
+    wf m d -> bop_ok d o -> bop_run B m d o = (code, m', l, d') ->
+    d' = breplay l d /\ wf m' d' /\ forall n, Consistent (breplay (firstn n l) d).
+Proof.
+  intros B m d o code m' l d' W Ok E. destruct o as [b seen|r]; cbn in E, Ok.
+  - destruct (save_block m b seen) as [[m1 l1]|] eqn:S; inversion E; subst.
+    + split; [reflexivity|]. destruct (save_full _ _ _ _ _ _ W Ok S) as [C Em]. split; [split; assumption|].
+      apply (save_prefixes _ _ _ _ _ _ W Ok S).
+    + split; [reflexivity|]. split; [exact W|]. intros n. rewrite firstn_nil. exact (proj2 W).
+  - pose proof (prune_ok B m d r W) as P. destruct (prune_blocks B m d r) as [c|pr m1 l1 d1]; inversion E; subst.
+    + split; [reflexivity|]. split; [exact W|]. intros n. rewrite firstn_nil. exact (proj2 W).
+    + destruct P as (Ed & Em & _ & _ & Pp & C & _). split; [exact Ed|]. split; [split; assumption|exact Pp].
+Qed.
+
+(* states reachable by any sequence of SaveBlock / PruneBlocks calls, each of which may be cut
+   short by a crash after any number of its write steps, followed by a restart
+   (NewBlockStore re-reads the range descriptor) *)
+Inductive Reach (B : Z) : mem -> bdb -> Prop :=
+| R_init : Reach B {| m_base := 0; m_height := 0 |} []
+| R_op : forall m d o code m' l d',
+    Reach B m d -> bop_ok d o -> bop_run B m d o = (code, m', l, d') -> Reach B m' d'
+| R_crash : forall m d o code m' l d' n,
+    Reach B m d -> bop_ok d o -> bop_run B m d o = (code, m', l, d') ->
+    Reach B (load_state (breplay (firstn n l) d)) (breplay (firstn n l) d).
+
+Lemma reach_wf : forall B m d, Reach B m d -> wf m d.
+Proof.
+  intros B m d R. induction R.
+  - split; [reflexivity|]. left. split; reflexivity.
+  - destruct (bop_run_ok _ _ _ _ _ _ _ _ IHR H H0) as (_ & W & _). exact W.
+  - destruct (bop_run_ok _ _ _ _ _ _ _ _ IHR H H0) as (_ & _ & P). split; [reflexivity|apply P].
+Qed.
+
+Lemma audit_invariant : forall B m d, Reach B m d -> audit d = (0, 0) /\ m = load_state d.
+Proof.
+  intros B m d R. destruct (reach_wf _ _ _ R) as [E C]. split; [apply audit_spec; exact C | exact E].
+Qed.
+
+Lemma audit_crash_points : forall B m d o code m' l d',
+    Reach B m d -> bop_ok d o -> bop_run B m d o = (code, m', l, d') ->
+    forall n, audit (breplay (firstn n l) d) = (0, 0).
+Proof.
+  intros B m d o code m' l d' R Ok E n. apply audit_spec.
+  destruct (bop_run_ok _ _ _ _ _ _ _ _ (reach_wf _ _ _ R) Ok E) as (_ & _ & P). apply P.
+Qed.
+
+Lemma audit_sound : forall d, audit d = (0, 0) -> Consistent d.
+Proof. intros d. apply audit_spec. Qed.
+
+Lemma prune_exact : forall B m d r pruned m' l d',
+    Reach B m d -> prune_blocks B m d r = POk pruned m' l d' ->
+    d' = breplay l d /\
+    load_state d' = {| m_base := r; m_height := m_height m |} /\ m_base m <= r <= m_height m /\
+    (forall k, k <> KDesc -> ~ dead d (m_base m) r k -> bget d' k = bget d k) /\
+    (forall k, dead d (m_base m) r k -> bget d' k = None).
+Proof.
+  intros B m d r pruned m' l d' R E. pose proof (prune_ok B m d r (reach_wf _ _ _ R)) as P.
+  rewrite E in P. destruct P as (Ed & Em & Em' & Rr & _ & _ & K & G).
+  split; [exact Ed|]. split; [congruence|]. split; [exact Rr|]. split; assumption.
+Qed.
+
+(* a refused prune writes nothing *)
+Lemma prune_refused : forall B m d r c, prune_blocks B m d r = PErr c ->
+    bop_run B m d (OPrune r) = (c, m, [], d).
+Proof. intros B m d r c E. cbn. rewrite E. reflexivity. Qed.
+
+(* ================================================================== Part 3: state store *)
+
+Lemma ckpt_eq : forall K h t, 0 < K -> h - h mod K < t <= h -> t - t mod K = h - h mod K.
+Proof.
+  intros K h t HK R.
+  rewrite (Z.mod_eq h K), (Z.mod_eq t K) in * by lia.
+  assert (E : t / K = h / K).
+  { apply Z.le_antisymm.
+    - apply Z.div_le_mono; lia.
+    - apply Z.div_le_lower_bound; lia. }
+  rewrite E. lia.
+Qed.
+
+Section LastChanged.
+  Variable K : Z.
+  Hypothesis HK : 0 < K.
+  (* L h = the last height <= h at which the validator set (resp. the parameters) changed *)
+  Variable L : Z -> Z.
+  Hypothesis L_le : forall h, L h <= h.
+  Hypothesis L_stable : forall h x, L h <= x <= h -> L x = L h.
+
+  (* the record a retained height resolves through is either retained itself or is the one
+     PruneStates keeps for [to] *)
+  Lemma keep_sufficient : forall t h, t <= h ->
+      t <= last_stored_height_for K h (L h) \/
+      last_stored_height_for K h (L h) = last_stored_height_for K t (L t).
+  Proof.
+    intros t h R. unfold last_stored_height_for.
+    destruct (Z_lt_le_dec (Z.max (h - h mod K) (L h)) t) as [Lt|Ge]; [right|left; exact Ge].
+    assert (E1 : L t = L h) by (apply L_stable; pose proof (L_le h); lia).
+    assert (E2 : t - t mod K = h - h mod K) by (apply ckpt_eq; lia).
+    rewrite E1, E2. reflexivity.
+  Qed.
+
+  Lemma keep_sufficient_full : forall t h, t <= h -> (L t = t \/ t mod K = 0) ->
+      t <= last_stored_height_for K h (L h).
+  Proof.
+    intros t h R C. destruct (keep_sufficient t h R) as [G|E]; [exact G|].
+    rewrite E. unfold last_stored_height_for. destruct C as [C|C]; [rewrite C|rewrite C]; lia.
+  Qed.
+
+  (* PruneStates(from, to) keeps the records LastHeightChanged(to) and
+     lastStoredHeightFor(to, LastHeightChanged(to)) when the record of [to] carries no set; any
+     database d' that agrees with d on the records at or above [to] and on those two resolves
+     every retained height exactly as d does. *)
+  Lemma vals_keep_set_sufficient : forall (d d' : sdb) t hi,
+      (forall h, t <= h <= hi -> exists o, load_vals_info d h = Some (L h, o) /\
+                                           (o <> None -> L h = h \/ h mod K = 0)) ->
+      (forall x, t <= x -> load_vals_info d' x = load_vals_info d x) ->
+      (forall lt, load_vals_info d t = Some (lt, None) ->
+                  load_vals_info d' (last_stored_height_for K t lt) =
+                  load_vals_info d (last_stored_height_for K t lt)) ->
+      forall h, t <= h <= hi -> load_validators K d' h = load_validators K d h.
+  Proof.
+    intros d d' t hi Shape Above Keep h R. unfold load_validators.
+    rewrite (Above h) by lia. destruct (Shape h R) as [o [E Ho]]. rewrite E.
+    destruct o as [v|]; [reflexivity|].
+    destruct (keep_sufficient t h ltac:(lia)) as [G|Eq].
+    - rewrite (Above _ G). reflexivity.
+    - rewrite Eq. destruct (Shape t ltac:(lia)) as [ot [Et Hot]].
+      destruct ot as [vt|].
+      + pose proof (keep_sufficient_full t h ltac:(lia) (Hot ltac:(discriminate))) as G.
+        rewrite <- Eq. rewrite (Above _ G). reflexivity.
+      + rewrite (Keep (L t) Et). reflexivity.
+  Qed.
+
+  (* the same for the consensus parameters: PruneStates keeps LastHeightChanged(to) *)
+  Lemma params_keep_set_sufficient : forall (d d' : sdb) t hi,
+      (forall h, t <= h <= hi -> exists o, load_params_info d h = Some (L h, o) /\ (o <> None -> L h = h)) ->
+      (forall x, t <= x -> load_params_info d' x = load_params_info d x) ->
+      (forall lt, load_params_info d t = Some (lt, None) -> load_params_info d' lt = load_params_info d lt) ->
+      forall h, t <= h <= hi -> load_consensus_params d' h = load_consensus_params d h.
+  Proof.
+    intros d d' t hi Shape Above Keep h R. unfold load_consensus_params.
+    rewrite (Above h) by lia. destruct (Shape h R) as [o [E Ho]]. rewrite E.
+    destruct o as [v|]; [reflexivity|].
+    destruct (Z_lt_le_dec (L h) t) as [Lt|Ge].
+    - assert (E1 : L t = L h) by (apply L_stable; lia).
+      destruct (Shape t ltac:(lia)) as [ot [Et Hot]]. destruct ot as [vt|].
+      + pose proof (Hot ltac:(discriminate)). lia.
+      + rewrite <- E1. rewrite (Keep (L t) Et). reflexivity.
+    - rewrite (Above _ Ge). reflexivity.
+  Qed.
+End LastChanged.
+
+(* dbStore.save writes the records the invariant above asks for *)
+Lemma state_save_writes : forall K st l,
+    state_save K st = (l, true) -> s_last st + 1 <> 1 ->
+    l = [ SSet (SKVals (s_last st + 2))
+               (SVVals (s_lhvc st) (if (s_last st + 2 =? s_lhvc st) || ((s_last st + 2) mod K =? 0)
+                                    then Some (s_next_vals st) else None));
+          SSet (SKParams (s_last st + 1))
+               (SVParams (s_lhpc st) (if s_lhpc st =? s_last st + 1 then Some (s_params st) else None));
+          SSetSync SKState (SVState (s_last st)) ].
+Proof.
+  intros K st l E N. unfold state_save in E.
+  replace (s_last st + 1 =? 1) with false in E by (symmetry; apply Z.eqb_neq; exact N).
+  unfold save_vals_info in E. destruct (s_last st + 1 + 1 <? s_lhvc st); [discriminate|].
+  inversion E. unfold save_params_info. replace (s_last st + 1 + 1) with (s_last st + 2) by lia. reflexivity.
+Qed.
